@@ -48,11 +48,13 @@ Module GrpT.
     j_ld : lD (lc s) <= b2n (ctx_done s);
     j_r4 : cR4 (cc s) <= b2n (hb_dying s);
     j_hb : cS2 (cc s) <= hA (hb s) + hD (hb s);
-    j_kerr : kErr (kc s) <= 1
+    j_kerr : kErr (kc s) <= 1;
+    (* consume goroutines exist only in a session that was set up completely: its partition-number watcher was started *)
+    j_run : 1 <= claims s -> lA (lc s) + lD (lc s) = 1
   }.
 
   Lemma inv2_init c : Inv2 (init c).
-  Proof. constructor; cbn; lia. Qed.
+  Proof. constructor; unfold claims; cbn; lia. Qed.
 
   Lemma c_spec3 x : cWC x <= cS2 x /\ cR4 x <= cS2 x /\ cWC x + cR4 x <= 1 /\ cWC x <= cPre3 x /\ cR4 x + cPre3 x <= 1.
   Proof. destruct x; cbn; lia. Qed.
@@ -63,10 +65,10 @@ Module GrpT.
       scbn H; unfold tick, toil, he_check, he_send, sync_checked in H;
       step_cases H; pair_cases; bool_hyps; pair_cases; bool_hyps;
       match goal with J : Inv2 ?sx, I : Inv ?sx |- _ =>
-        destruct J as [J1 J2 J3 J4 J5]; destr_inv I; pose_specs sx;
+        destruct J as [J1 J2 J3 J4 J5 J6]; destr_inv I; pose_specs sx;
         pose proof (c_spec3 (cc sx)); pose proof (l_spec3 (lc sx)); pose proof (b2n_le1 (ctx_done sx));
         unf; rew_eqs sx; cbn in *;
-        (constructor; unfold set_errs, with_panic, set_kc, set_cc, set_lk, set_sess, set_ctx, set_hb, set_lc, set_claims, set_budget, set_fw;
+        (constructor; unfold set_errs, with_panic, set_kc, set_cc, set_lk, set_sess, set_ctx, set_hb, set_lc, set_claims, set_budget, set_fw, claims;
          cbn; rew_goal sx; cbn; try lia2)
       end
     end.
@@ -126,19 +128,23 @@ Module GrpT.
       destruct (ctx_done s || closed_ch s); discriminate. }
     assert (A4 : n_new s = 0).
     { destruct (n_new s) eqn:E; auto. exfalso. pose proof (Hs (AGNew true)) as X. scbn X. rewrite E in X. discriminate. }
-    assert (A5 : n_run s = 0).
-    { destruct (n_run s) eqn:E; auto. exfalso. pose proof (Hs (AGRunEnd false)) as X. scbn X. rewrite E in X. discriminate. }
-    assert (A6 : n_wait s = 0).
-    { destruct (n_wait s) eqn:E; auto. exfalso. pose proof (Hs AGWaitEnd) as X. scbn X. rewrite E in X. discriminate. }
-    assert (A7 : n_defer s = 0).
-    { destruct (n_defer s) eqn:E; auto. exfalso. pose proof (Hs AGDefer) as X. scbn X. rewrite E in X. discriminate. }
     (* the partition-count loop is not running *)
     assert (A8 : lc s = LcNone \/ lc s = LcDone).
     { destruct (lc s) eqn:E; auto; exfalso.
       - pose proof (Hs (ALNet true)) as X. scbn X. rewrite E in X. discriminate.
       - pose proof (Hs ALStop) as X. scbn X. rewrite E, P in X. rewrite orb_true_r in X. discriminate.
       - pose proof (Hs ALExit) as X. scbn X. rewrite E in X. discriminate. }
-    destr_inv I. destruct J as [J1 J2 J3 J4 J5]. pose_specs s. pose proof (c_spec3 (cc s)). pose proof (l_spec3 (lc s)).
+    assert (A5 : n_run s = 0).
+    { destruct (n_run s) eqn:E; auto. exfalso. pose proof (Hs (AGRunEnd false)) as X. scbn X. rewrite E in X.
+      destruct (hctx c); cbn in X; [|discriminate]. destruct (ctx_done s) eqn:Ec; cbn in X; [discriminate|].
+      (* a handler waiting for the session context: the watcher is alive (and can move), or has cancelled the session *)
+      pose proof (j_ld _ J) as K2. pose proof (j_run _ J) as K6. unfold claims in K6. rewrite E, Ec in *.
+      destruct A8 as [A8|A8]; rewrite A8 in *; cbn in *; lia. }
+    assert (A6 : n_wait s = 0).
+    { destruct (n_wait s) eqn:E; auto. exfalso. pose proof (Hs AGWaitEnd) as X. scbn X. rewrite E in X. discriminate. }
+    assert (A7 : n_defer s = 0).
+    { destruct (n_defer s) eqn:E; auto. exfalso. pose proof (Hs AGDefer) as X. scbn X. rewrite E in X. discriminate. }
+    destr_inv I. destruct J as [J1 J2 J3 J4 J5 J6]. pose_specs s. pose proof (c_spec3 (cc s)). pose proof (l_spec3 (lc s)).
     unfold claims in *. rewrite A2, A3, A4, A5, A6, A7 in *.
     (* the caller of Consume is back *)
     assert (B : cc s = CIdle).
